@@ -674,6 +674,13 @@ func init() {
 		Variant{Name: "benign: same patch seen by C15", Property: "C15", File: "seeded-benign/C16-allow-list-deduplicated.diff", Benign: true,
 			Patch: "seeded-benign/C16-allow-list-deduplicated.diff"},
 	)
+	// ---- all-or-nothing stream reporter (O20.11)
+	addVariants(
+		Variant{Name: "benign: the gauge is driven by the reporter callback, observer first (the repaired form of seed C20-f)", Property: "C20", File: "seeded-benign/C20-gauge-driven-by-reporter-observer-first.diff", Benign: true,
+			Patch: "seeded-benign/C20-gauge-driven-by-reporter-observer-first.diff"},
+		Variant{Name: "handler's gauge Dec is no longer deferred", Property: "C20", File: "proxy/adminservice.go",
+			Old: "\tstreamsActiveGauge.Inc()\n\tdefer streamsActiveGauge.Dec()\n", New: "\tstreamsActiveGauge.Inc()\n", Expect: "O20.11"},
+	)
 	// ---- swallowed errors and retained state (general rules)
 	addVariants(
 		Variant{Name: "blob repair error logged and dropped", Property: "C17", File: refl,
